@@ -105,6 +105,29 @@ fn b(x: bool) -> String {
     if x { "1".into() } else { "0".into() }
 }
 
+/// does the crate implement operator `op` for the form named `tag`?  (auto-ref probe, cached)
+pub fn op_exists(tag: &str, op: &str) -> bool {
+    use std::collections::HashMap;
+    use std::sync::{Mutex, OnceLock};
+    static CACHE: OnceLock<Mutex<HashMap<(String, String), bool>>> = OnceLock::new();
+    let m = CACHE.get_or_init(|| Mutex::new(HashMap::new()));
+    if let Some(v) = m.lock().unwrap().get(&(tag.to_string(), op.to_string())) {
+        return *v;
+    }
+    let n = match crate::types::tag_len(tag) {
+        usize::MAX => 3,
+        n => n,
+    };
+    let c = Case::new("opsraw", tag)
+        .set("op", Val::S(op.into()))
+        .set("p", Val::L(vec![1.0; n]))
+        .set("q", Val::L(vec![1.0; n]))
+        .set("s", Val::F(1.0));
+    let r = run_impl(&c).iter().any(|(k, v)| k == "impl" && v != "NOIMPL");
+    m.lock().unwrap().insert((tag.to_string(), op.to_string()), r);
+    r
+}
+
 /// Runs the real code; returns the output fields (`impl`, and the reference fields monitors use).
 pub fn run_impl(c: &Case) -> Vec<(String, String)> {
     if let Some(v) = crate::extra::run_extra(c) {
@@ -187,14 +210,40 @@ pub fn run_impl(c: &Case) -> Vec<(String, String)> {
         "mulassign" => with_mulassign!(tag, T => guard(|| { let mut p = T::from_nums(c.li("p")); p *= c.fl("s"); hxs(&p.to_nums()) })),
         "neg" => with_negadd!(tag, T => guard(|| hxs(&(-T::from_nums(c.li("p"))).to_nums()))),
         "add" => with_negadd!(tag, T => guard(|| hxs(&(T::from_nums(c.li("p")) + T::from_nums(c.li("q"))).to_nums()))),
+        "opsraw" => with_all!(tag, T => {
+            #[allow(unused_imports)]
+            use crate::probe::*;
+            let pr = Probe::<T>::new();
+            let p = || T::from_nums(c.li("p"));
+            let q = || T::from_nums(c.li("q"));
+            let op = c.st("op").to_string();
+            let r = catch_unwind(AssertUnwindSafe(|| match op.as_str() {
+                "mul" => (&pr).op_mul(p(), c.fl("s")),
+                "mulassign" => (&pr).op_mulassign(p(), c.fl("s")),
+                "neg" => (&pr).op_neg(p()),
+                "add" => (&pr).op_add(p(), q()),
+                "sub" => (&pr).op_sub(p(), q()),
+                "addassign" => (&pr).op_addassign(p(), q()),
+                "subassign" => (&pr).op_subassign(p(), q()),
+                _ => None,
+            }));
+            match r {
+                Ok(Some(v)) => hxs(&v),
+                Ok(None) => "NOIMPL".to_string(),
+                Err(_) => "PANIC".to_string(),
+            }
+        }),
         "absdiff" => with_all!(tag, T => {
             // the default tolerance every type advertises (C17 quantifies over "0, default, large")
             out.push(("deps".to_string(), guard(|| hx(<T as AbsDiffEq>::default_epsilon()))));
+            // C17: both relations are "implied by ==" - the implementation's own PartialEq
+            out.push(("eq".to_string(), guard(|| b(T::from_nums(c.li("p")) == T::from_nums(c.li("q"))))));
             guard(|| b(T::from_nums(c.li("p")).abs_diff_eq(&T::from_nums(c.li("q")), c.fl("eps"))))
         }),
         "releq" => with_all!(tag, T => {
             out.push(("deps".to_string(), guard(|| hx(<T as AbsDiffEq>::default_epsilon()))));
             out.push(("dmr".to_string(), guard(|| hx(<T as RelativeEq>::default_max_relative()))));
+            out.push(("eq".to_string(), guard(|| b(T::from_nums(c.li("p")) == T::from_nums(c.li("q"))))));
             guard(|| b(T::from_nums(c.li("p")).relative_eq(&T::from_nums(c.li("q")), c.fl("eps"), c.fl("mr"))))
         }),
         "pwderiv" => with_deriv!(tag, T => guard(|| show_pw(&pw_from(&pw_to::<T>(c.pw("pw")).derivative())))),
@@ -240,6 +289,7 @@ pub fn run_impl(c: &Case) -> Vec<(String, String)> {
                 let s = <Segment<T> as AbsDiffEq>::default_epsilon();
                 if a.to_bits() == s.to_bits() { hx(a) } else { hx(f64::NAN) }
             })));
+            out.push(("eq".to_string(), guard(|| b(pw_to::<T>(c.pw("pw")) == pw_to::<T>(c.pw("pw2"))))));
             guard(|| b(pw_to::<T>(c.pw("pw")).abs_diff_eq(&pw_to::<T>(c.pw("pw2")), c.fl("eps"))))
         }),
         "pwreleq" => with_fixed!(tag, T => {
@@ -248,6 +298,7 @@ pub fn run_impl(c: &Case) -> Vec<(String, String)> {
                 let s = <Segment<T> as RelativeEq>::default_max_relative();
                 if a.to_bits() == s.to_bits() { hx(a) } else { hx(f64::NAN) }
             })));
+            out.push(("eq".to_string(), guard(|| b(pw_to::<T>(c.pw("pw")) == pw_to::<T>(c.pw("pw2"))))));
             guard(|| b(pw_to::<T>(c.pw("pw")).relative_eq(&pw_to::<T>(c.pw("pw2")), c.fl("eps"), c.fl("mr"))))
         }),
         "merge" => {
